@@ -53,9 +53,19 @@ def findAndModify (cfg : Cfg) (now : Int) (c : Coll) (query proj : Val) (update 
     (upsert : Bool) (sort : Option SortSpec) (after : Bool) : Coll × R (Option Val) :=
   -- `if not (remove or update): raise ValueError`
   match update with
-  | some u => if !u.truthy then (c, .error .valueErr) else go
+  | some u =>
+    if !u.truthy then (c, .error .valueErr)
+    else
+      -- `if update: _validate_update_operators(update)`: before the target is looked for
+      match (match u with | .doc ufs => validateUpdateOperators ufs | _ => .ok ()) with
+      | .error e => (c, .error e)
+      | .ok () => go
   | none => go
 where
+  /-- `self._copy_only_fields({}, projection, dict)`: a projection that is refused whatever the
+      document is refused BEFORE the write (what depends on the document - a `$slice` of a field
+      that is no array, a positional path - is still met only by the read-back) -/
+  projOk : R Unit := (copyOnlyFields (.doc []) proj).map (fun _ => ())
   go : Coll × R (Option Val) :=
     match findOneColl now c query .null sort with
     | (c1, .error e) => (c1, .error e)
@@ -65,6 +75,9 @@ where
         match update with
         | none => (c1, .ok none)
         | some u =>
+          match projOk with
+          | .error e => (c1, .error e)
+          | .ok () =>
           let (c2, r) := applyUpdateColl cfg now c1 query u true false
           (match r with
            | .error e => (c2, .error e)
@@ -90,6 +103,9 @@ where
            | .error e => (c3, .error e)
            | .ok _ => (c3, .ok old))
         | some u =>
+          match projOk with
+          | .error e => (c2, .error e)
+          | .ok () =>
           let (c3, r) := applyUpdateColl cfg now c2 q u upsert false
           (match r with
            | .error e => (c3, .error e)
@@ -132,9 +148,9 @@ def bulkOne (cfg : Cfg) (now : Int) (c : Coll) (idx : Nat) (req : Val) : Coll ×
     | .error e => (c', if e.isWriteError then .writeErr e else .abort e)
     | .ok res =>
       (c', .ok (fun t =>
-        -- `if result.get('upserted') is not None`
+        -- `if result.get('upserted') is not None or (n and updatedExisting is False)`: an
+        -- upserted `_id` can be null
         let t := match res.upserted with
-          | some .null => { t with nMatched := t.nMatched + res.n }
           | some id =>
             { t with upserted := t.upserted ++ [Val.doc [("index", Val.int idx), ("_id", id)]],
                      nUpserted := t.nUpserted + res.n }
